@@ -340,6 +340,32 @@ def run(ctx, model_available=True):
                                  "desc": f"protocol {version}: direct write of tag100 suspended, node 1 goes to sleep, tag101 parked for the same key, write completes: {desc}",
                                  "case": {"version": version, "scenario": "direct-write-then-sleep"}})
             r.close()
+    # KNOWN FINDING C09:direct-race — a command parked for a node survives the node presenting
+    # itself again; a newer value is then written directly and, while that write is suspended,
+    # the node's wake signal starts a flush that writes the stale parked value after it
+    for version in ("2.0", "2.1", "2.2"):
+        r = Race(version, sleeping=True)
+        r.send(KEYS[0], 100)                              # parked
+        for line in ("1;255;0;0;17;2.0", "1;0;0;0;3;"):   # node 1 presents itself again: flagged awake
+            r.tr.inq.put_nowait(line)
+            if r.agen is None:
+                r.agen = r.gw.listen()
+            r.listener = r.loop.create_task(r.agen.__anext__())
+            r.spin()
+            r.reap()
+        r.send(KEYS[0], 101)                              # written directly, suspended at the gate
+        r.wake(1)                                         # the flush finds the stale parked command
+        while r.tr.pending:
+            r.complete(True)
+        r.quiesce([1, 2])
+        dist["schedules_run"] += 1
+        for sig, desc in oracle(r, [])[:2]:
+            failures.append({"kind": "oracle", "sig": "C09:direct-race" if sig == "C09:lost-update" else sig,
+                             "desc": f"protocol {version}: tag100 parked, node 1 presents itself again, tag101 written directly (write suspended), wake of node 1: {desc}",
+                             "case": {"version": version, "scenario": "parked-represented-direct-wake"}})
+        d.add("FL 1 6 S 1 0 2 100 D 1 0 2 101 W 1 B F 1 E 1 2 1 2")
+        expect.append((version, "parked-represented-direct-wake", r.written(), r.buffer(), r.sent))
+        r.close()
     if model_available:
         outs = d.run()
         for (version, acts, w, b, s), mout in zip(expect, outs):
